@@ -369,4 +369,45 @@ end bures
 def compareAll {β γ : Type} (f : β → β → γ) (xs ys : List β) : List (List γ) :=
   xs.map (fun x => ys.map (fun y => f x y))
 
+/-! ## 9. (round 2) variants that call the regenerated leaves; argument checks -/
+
+section coded
+variable {α : Type} [Add α] [Sub α] [Mul α] [Div α] [Neg α] [Zero α] [One α] [NatCast α]
+  [LT α] [DecidableLT α] [LE α] [DecidableLE α] [Max α] [Min α]
+
+/-- `compare_rho_a` with the constant taken from the source text (`Gen.C03.rhoAScale`) -/
+def rhoACoded (x y : List α) : α :=
+  Rsa.Gen.C03.rhoAScale (dot (center (avgRank x)) (center (avgRank y))) (x.length : α)
+
+/-- double centring as `_cov_weighting` does it: the grand mean is
+    `np.sum(vector_w * 2) / (n_cond * n_cond)` over the stretched vector (off-diagonal
+    entries once, zero diagonal), through the leaf `Gen.C03.ckaGrandMean` -/
+def centreKernelCoded (n : Nat) (g : Nat → Nat → α) : Nat → Nat → α :=
+  let s := colMean n g
+  let total2 := ((pairs n).map (fun p => g p.1 p.2 * ((2 : Nat) : α))).sum
+  let mm := Rsa.Gen.C03.ckaGrandMean total2 (n : α)
+  fun i j => g i j - s j - s i + mm
+
+variable [HasSqrt α]
+
+def covWeightingCoded (n : Nat) (r : List α) : List α :=
+  let g := centreKernelCoded n (halfNeg n r)
+  (pairs n).map (fun p => g p.1 p.2 * HasSqrt.sqrt ((2 : Nat) : α)) ++
+    (List.range n).map (fun k => g k k)
+
+/-- fast path of `_cosine_cov_weighted` for `sigma_k=None`, leaf-dependent form -/
+def whitenedCosFastCoded (n : Nat) (r1 r2 : List α) : α :=
+  cosine (covWeightingCoded n r1) (covWeightingCoded n r2)
+
+end coded
+
+/-- the method names `compare` dispatches on (anything else raises `ValueError`) -/
+def methodNames : List String :=
+  ["cosine", "spearman", "corr", "kendall", "tau-b", "tau-a", "rho-a", "corr_cov", "cosine_cov",
+   "neg_riem_dist", "bures", "bures_metric"]
+
+/-- `compare` accepts a call iff the method is known and both stacks have vectors of one
+    common length (`_parse_input_rdms`: "rdm1 and rdm2 must be RDMs of equal shape") -/
+def accepts (method : String) (lx ly : Nat) : Bool := methodNames.contains method && lx == ly
+
 end Rsa.Compare
